@@ -1,7 +1,7 @@
 (** C15 — equal?/eqv?/hash coherence; hash tables are finite maps: property theorems only. *)
 From Coq Require Import List ZArith Bool.
 From ChibiV Require Import Common.Words Gen.C15_Consts C15.Table C15.TableProofs C15.Obj C15.ObjProofs C15.ObjEqual C15.Graph Gen.C15_Equiv C15.Combined.
-From ChibiV Require C15.GraphProofs C15.GraphSpec.
+From ChibiV Require C15.GraphProofs C15.GraphSpec C15.ObjSound C15.DefaultHash C15.DefaultHashProofs Gen.C15_OptHash.
 Import ListNotations.
 Local Open Scope Z_scope.
 
@@ -165,3 +165,55 @@ Theorem bisim_dec_decides_bisim : forall (L : Type) (leq : L -> L -> bool) (g : 
   bisim_dec leq g x y = true <-> bisim leq g x y.
 Proof. exact @GraphSpec.bisim_dec_correct. Qed.
 Print Assumptions bisim_dec_decides_bisim.
+
+(* ------------------------------------------------------------------ round 3 *)
+(** The definite answers of sexp_equalp_bound (#f; a remaining bound >= 0) are sound for data of ANY
+    size and depth and any fuel of the model, provided bound <= depth at the call: what must not
+    change is that every nesting level costs at least one unit of bound. *)
+Theorem equal_bound_sound : forall a b fuel depth bound, wf a -> wf b -> bound <= depth ->
+  (equal_bound fuel a b depth bound = EFalse -> absv a <> absv b) /\
+  (forall r, equal_bound fuel a b depth bound = EBound r -> 0 <= r -> absv a = absv b).
+Proof. exact ObjSound.equal_bound_sound. Qed.
+Print Assumptions equal_bound_sound.
+
+(** (scheme base) equal? calls the bounded pass with the limits regenerated from lib/chibi/equiv.scm
+    (D = B): `bounded_sound' holds for tree-shaped data beyond every limit. *)
+Theorem slow_path_bounded_pass_sound : forall a b, wf a -> wf b ->
+  (equal_bounded a b SLOW_DEPTH SLOW_BOUND = EFalse -> absv a <> absv b) /\
+  (forall r, equal_bounded a b SLOW_DEPTH SLOW_BOUND = EBound r -> 0 < r -> absv a = absv b).
+Proof. exact ObjSound.slow_path_bounded_pass_sound. Qed.
+Print Assumptions slow_path_bounded_pass_sound.
+
+(** REFUTED for bound > depth (the core `equal?' primitive: depth 10000, bound 10^8): at the depth
+    cut-off a positive bound comes back for different data.  Recorded as F-C15-4. *)
+Theorem core_equal_depth_cutoff_refuted :
+  exists a b depth bound r, wf a /\ wf b /\ depth < bound /\
+    equal_bounded a b depth bound = EBound r /\ 0 < r /\ absv a <> absv b.
+Proof. exact ObjSound.depth_cutoff_unsound. Qed.
+Print Assumptions core_equal_depth_cutoff_refuted.
+
+(** The hash function a (srfi 69) / (srfi 125) constructor picks when given only eq?, eqv?, equal? or
+    string=? (REGENERATED from opt-hash / make-hash-table) respects that equivalence, on objects
+    living at addresses (eq? = same immediate or same address; hash-by-identity = address). *)
+Theorem default_hash_respects_equivalence : forall e, In e DefaultHash.standard_eqs ->
+  forall x y n, DefaultHashProofs.wfl x -> DefaultHashProofs.wfl y -> DefaultHashProofs.consistent x y ->
+    DefaultHash.sem_eq e x y = true ->
+    DefaultHash.sem_hash (C15_OptHash.opt_hash_125 e) x n = DefaultHash.sem_hash (C15_OptHash.opt_hash_125 e) y n /\
+    DefaultHash.sem_hash (C15_OptHash.opt_hash_69 e) x n = DefaultHash.sem_hash (C15_OptHash.opt_hash_69 e) y n.
+Proof. exact DefaultHashProofs.default_hash_respects_equivalence. Qed.
+Print Assumptions default_hash_respects_equivalence.
+
+(** the same for the (equality, hash) pairs of (srfi 128) make-eq/eqv/equal-comparator *)
+Theorem comparator_hash_respects_equality : forall e h, In (e, h) C15_OptHash.comparators_128 ->
+  forall x y n, DefaultHashProofs.wfl x -> DefaultHashProofs.wfl y -> DefaultHashProofs.consistent x y ->
+    DefaultHash.sem_eq e x y = true -> DefaultHash.sem_hash h x n = DefaultHash.sem_hash h y n.
+Proof. exact DefaultHashProofs.comparator_hash_respects_equality. Qed.
+Print Assumptions comparator_hash_respects_equality.
+
+(** hash-by-identity respects only eq?: two eqv? bignums at different addresses hash differently *)
+Theorem identity_hash_does_not_respect_eqv :
+  exists x y n, DefaultHashProofs.wfl x /\ DefaultHashProofs.wfl y /\ DefaultHashProofs.consistent x y /\
+    DefaultHash.sem_eq DefaultHash.EqEqv x y = true /\
+    DefaultHash.sem_hash DefaultHash.HIdentity x n <> DefaultHash.sem_hash DefaultHash.HIdentity y n.
+Proof. exact DefaultHashProofs.identity_hash_does_not_respect_eqv. Qed.
+Print Assumptions identity_hash_does_not_respect_eqv.
